@@ -23,7 +23,10 @@ ASSUMPTIONS = ["handlers claim or decline according to a fixed per-window mask a
                "with a mutation inside a handler no window claims the event (so that the whole order is traversed)",
                "every window carries one extra reference held by the harness; 'destroy' drops it and the creation reference",
                "no int overflow"]
-TRUSTED = ["model coq/WinInput.v (pointer-following routing with fuel over the window forest), spec coq/WinInputSpec.v"]
+TRUSTED = ["model coq/WinInput.v (pointer-following routing with fuel over the window forest), spec coq/WinInputSpec.v",
+           "driver glue ocaml/drv_win.ml (NOT model): focus-handler calls are applied after the whole change of focus; after a "
+           "focus-child-notify handler that hides the child it is told about, the driver puts the parent's focus link back, as "
+           "window.c's _focus_gained does with its last assignment (only histories with such a handler are affected)"]
 
 PROFILE = {"new": 14, "close": 2, "show": 4, "hide": 6, "restack": 4, "geom": 4, "flush": 6, "focus": 8, "steal": 5,
            "key": 12, "mouse": 0, "_steal": 0.25}
